@@ -100,6 +100,16 @@ def test_dataformatmodel_encodings():
     check("encoding-with-restrictions", DM.expect("delimited", "encoding", "idna")[0], DM.UNJUDGED)
 
 
+def test_fieldmodel_day_and_month_without_year():
+    from cpverif.models import fieldmodel as FM
+
+    decl = {"type": "DateTime", "name": "d", "empty": False, "length": "", "rule": "DD.MM"}
+    fmt = {"kind": "delimited", "dec": ".", "ths": "", "allowed": None}
+    check("leap-day-without-year", FM.expected(decl, fmt, "29.02")[0], FM.ACCEPT)
+    check("30-feb-without-year", FM.expected(decl, fmt, "30.02")[0], FM.REJECT)
+    check("31-apr-without-year", FM.expected(decl, fmt, "31.04")[0], FM.REJECT)
+
+
 def run_all():
     for name, fn in sorted(globals().items()):
         if name.startswith("test_") and callable(fn):
